@@ -34,7 +34,7 @@ const WORDS: [&str; 8] = ["a", "A", "ab", "AB", "a b", "a  b", "Ab", ""];
 fn gen_query(rng: &mut Rng, with_view: bool) -> String {
     let w = |rng: &mut Rng| format!("'{}'", rng.pick(&WORDS));
     let n = rng.range(0, 5);
-    let base = match rng.below(if with_view { 16 } else { 14 }) {
+    let base = match rng.below(if with_view { 18 } else { 16 }) {
         0 => format!("SELECT * FROM t0 WHERE s = {}", w(rng)),
         1 => format!("SELECT k FROM t0 WHERE s <> {}", w(rng)),
         2 => format!("SELECT k, {} FROM t0", w(rng)),
@@ -49,7 +49,10 @@ fn gen_query(rng: &mut Rng, with_view: bool) -> String {
         11 => "SELECT k FROM t0 UNION SELECT k FROM t1".to_string(),
         12 => format!("SELECT s, COUNT(*) FROM t0 GROUP BY s HAVING COUNT(*) >= (SELECT COUNT(*) FROM t1 WHERE v = {})", n),
         13 => format!("SELECT x.k FROM t0 x LEFT JOIN t1 y ON x.k = y.k WHERE x.s = {}", w(rng)),
-        14 => format!("SELECT * FROM v0 WHERE s = {}", w(rng)),
+        // a CTE that shadows the table it reads (filtering-CTE idiom)
+        14 => format!("WITH t1 AS (SELECT k, v FROM t1 WHERE v >= {}) SELECT * FROM t1", n),
+        15 => format!("WITH t0 AS (SELECT k FROM t0 WHERE s = {}) SELECT t0.k, t1.v FROM t0, t1 WHERE t0.k = t1.k", w(rng)),
+        16 => format!("SELECT * FROM v0 WHERE s = {}", w(rng)),
         _ => "SELECT COUNT(*) FROM v0".to_string(),
     };
     // layout / identifier-case variants of the same query
